@@ -345,6 +345,12 @@ class SimPool:
             tmin = min(p.free_at for p in self.workers)
             cands = [i for i, p in enumerate(self.workers) if p.free_at <= tmin + 1e-12]
             wi = cands[w.ch.pick('sched.tie', len(cands))] if len(cands) > 1 else cands[0]
+            forced = w.poolcfg.get('force_assign')
+            if forced is not None:
+                # fidelity self-test: replay the job->worker assignment observed on the real pool
+                wi = forced[chunk[0]]
+                if any(forced[ti] != wi for ti in chunk):
+                    raise W.HarnessError('forced assignment splits a chunk')
             p = self.workers[wi]
             start_t = max(p.free_at, t0)
             w.now = max(w.now, start_t)
